@@ -280,7 +280,7 @@ def joined_constraints_go_through_the_combinator_whatever_their_number(ctx):
 
 @rule('C17.i', min_instances=1)
 def unchanged_means_equal_up_to_rounding_only(ctx):
-    """and_ compares successive vectors with a helper _same(a, b): it may answer True only for a == b or for vectors that agree to within floating-point rounding (mystic.math.almostEqual with absolute tolerance 0 and a relative tolerance of at most 4.5e-16, two units in the last place: the step a symbolic strict inequality takes past its bound is tol + rel*|x| with both 1e-15, four ulp or more - with a threshold of 1e-15 and_(integers, x0 > 1200000) claimed success at 1200000.0000000012 and at 1200000) - a member such as impose_sum is not bit-for-bit idempotent (1 ulp), and with exact equality and_ ran to maxiter and took the failure path on points that satisfy every member; a looser test would claim success at points a member still moves visibly"""
+    """and_ compares successive vectors with a helper _same(a, b): it may answer True only for a == b or for vectors that agree to within floating-point rounding (mystic.math.almostEqual with absolute tolerance 0 and a relative tolerance below 8.9e-16: the step a symbolic strict inequality takes past its bound is tol + rel*|x| with both 1e-15, so after rounding at least 1e-15 - 2**-53 relative, while the rounding noise of consistent members (impose_sum with impose_spread) reaches 2-4 ulp - with a threshold of 1e-15 and_(integers, x0 > 1200000) claimed success at 1200000.0000000012 and at 1200000) - a member such as impose_sum is not bit-for-bit idempotent (1 ulp), and with exact equality and_ ran to maxiter and took the failure path on points that satisfy every member; a looser test would claim success at points a member still moves visibly"""
     outer = ctx.func('%s:and_' % CN)
     helpers = [d for d in ast.walk(outer.node) if isinstance(d, ast.FunctionDef) and d.name == '_same']
     uses = [c for c in ast.walk(outer.node) if isinstance(c, ast.Call) and isinstance(c.func, ast.Name) and c.func.id == '_same']
@@ -308,10 +308,10 @@ def unchanged_means_equal_up_to_rounding_only(ctx):
             tol = kw.get('tol', calls[0].args[2] if len(calls[0].args) > 2 else None)
             rel = kw.get('rel', calls[0].args[3] if len(calls[0].args) > 3 else None)
             try:
-                ok_ = tol is not None and rel is not None and float(ast.literal_eval(tol)) == 0.0 and 0.0 <= float(ast.literal_eval(rel)) <= 4.5e-16
+                ok_ = tol is not None and rel is not None and float(ast.literal_eval(tol)) == 0.0 and 0.0 <= float(ast.literal_eval(rel)) < 8.9e-16
             except Exception:
                 ok_ = False
         if not ok_:
             bad = r
-    ctx.check(bad is None, 'and_._same', 'True only for == or agreement to within rounding (rel <= 4.5e-16, tol 0)',
+    ctx.check(bad is None, 'and_._same', 'True only for == or agreement to within rounding (rel < 8.9e-16, tol 0)',
               'and_ takes two vectors for "the same" under %s: a success claimed on that basis can be a point a member still changes by more than rounding (the step of a strict inequality is 1e-15 relative)' % (unparse(bad.value)[:70] if bad is not None else ''), outer, bad or h)
